@@ -29,9 +29,9 @@ ASSUMPTIONS = ["'committed' = a version the pointer named after a call that retu
                "the pointer of a healthy table with trailing newline/CRLF/space is still the current pointer (parser strips whitespace)"]
 REQUIRED_LABELS = {"quick": ["orphan-higher-than-committed", "damage:stale", "damage:deleted", "action:create_table", "versions>=10"], "thorough": ["orphan-higher-than-committed"]}
 
-DAMAGES = ["deleted", "empty", "whitespace", "random", "invalid_utf8", "digits_missing", "digits_huge", "legacy_name", "missing_file", "stale",
+DAMAGES = ["deleted", "empty", "whitespace", "random", "invalid_utf8", "digits_missing", "digits_lower", "digits_huge", "legacy_name", "legacy_lower", "missing_file", "stale",
            "orphan", "current_lf", "current_crlf", "current_spaces", "path_sep", "dotdot", "long_garbage"]
-ACTIONS = ["load_table", "create_table", "append", "scan", "gc"]
+ACTIONS = ["load_table", "create_table", "append", "append_then_lose_pointer", "scan", "gc"]
 
 
 @st.composite
@@ -94,6 +94,10 @@ def check_case(case):
             open(hint, "wb").write(b"\xff\xfe" + case["rnd"])
         elif dmg == "digits_missing":
             open(hint, "wb").write(str(vL + 50).encode())
+        elif dmg == "digits_lower":
+            open(hint, "wb").write(str(max(vL - 2, 0)).encode())
+        elif dmg == "legacy_lower":
+            open(hint, "wb").write(f"v{max(vL - 1, 0)}.metadata.json".encode())
         elif dmg == "digits_huge":
             open(hint, "wb").write(b"9" * 40)
         elif dmg == "legacy_name":
@@ -192,6 +196,18 @@ def check_case(case):
             v2 = read_view(DirFS(root))
             if [s["id"] for s in v2["snapshots"]][: len(want_ids)] != want_ids:
                 vio("append-forked", "the follow-up append did not build on the latest committed version")
+        if act == "append_then_lose_pointer":
+            # a commit made after recovery must itself survive a second loss of the pointer
+            try:
+                t.append_records([{"k": -2, "s": "after"}])
+                os.remove(hint)
+                got = rows_multiset(datashard.load_table(root).scan())
+            except Exception as e:  # noqa
+                vio("append-then-recover-raises", f"{type(e).__name__}: {str(e)[:120]}")
+                return out
+            if got != want_rows + rows_multiset([{"k": -2, "s": "after"}]):
+                vio("acknowledged-commit-lost-after-second-pointer-loss", f"after append + pointer loss the table has {sum(got.values())} rows, expected {sum(want_rows.values()) + 1}")
+                return out
         if act == "gc":
             age_tree(root, 90000, only=lambda rel: rel.startswith("data") or rel.startswith("metadata/manifests"))
             need = reachable_files(want)
@@ -206,7 +222,7 @@ def check_case(case):
 
 
 def plan(tier, seed):
-    n = 250 if tier == "quick" else 3000
+    n = 180 if tier == "quick" else 3000
     return [{"n": n, "seed": seed * 1000 + s, "tier": tier} for s in range(16)]
 
 
